@@ -290,6 +290,9 @@ PROPS["C16"] = dict(
             workers=(5, 6), cases=(8, 500), time_s=(45, 800), args={"max-files": 6, "max-file-bytes": 20000, "max-points": (30, 60)}, **FULL),
         Job("sess-t1024-x16k-c8", engine="session", profile="smallchunk", env=senv(1024, 16384, 8, ib=65536, shard_min=8192),
             workers=(4, 30), cases=(40, 400), time_s=(45, 800), **FULL),
+        # sessions dominated by unchanged re-uploads (fully deduplicated files and sessions): the "success => reconstructible" clause without faults
+        Job("sess-repeat-t1024-fragoff", engine="session", profile="smallchunk", env=senv(1024, 16384, 8, shard_min=4096, nranges=100000),
+            workers=(3, 30), cases=(60, 400), time_s=(45, 800), args={"repeat-bias": True, "no-global": True}, **FULL),
     ],
     gates=dict(evaluations=(800, 15000), distinct=(100, 400),
                counters={"fault_runs_injected": (600, 8000), "sessions_with_every_single_fault_point_enumerated": (40, 300), "shard_uploads_order_checked": (150, 3000),
